@@ -71,7 +71,17 @@ type hookConn struct {
 	*lib.RecConn
 	mu   sync.Mutex
 	hook func(frame []byte) error
+	isClosed bool
 }
+
+func (c *hookConn) Close() error {
+	c.mu.Lock()
+	c.isClosed = true
+	c.mu.Unlock()
+	return c.RecConn.Close()
+}
+
+func (c *hookConn) IsClosed() bool { c.mu.Lock(); defer c.mu.Unlock(); return c.isClosed }
 
 func (c *hookConn) WriteTo(b []byte, a net.Addr) (int, error) {
 	c.RecConn.WriteTo(b, a)
@@ -122,6 +132,7 @@ type executor struct {
 	lastNW time.Time // when the last non-wait step finished
 	bad    string
 	hconn  *hookConn
+	units  map[int]*sessUnit
 }
 
 func peerMAC(p int) net.HardwareAddr { return net.HardwareAddr{0x02, 0x19, 0, 0, byte(p >> 8), byte(p)} }
@@ -132,14 +143,40 @@ func peerIP6(p int) netip.Addr {
 	return netip.AddrFrom16(a)
 }
 
+// One process may hold several sessions (the waiter table is shared by all of them). Session k is
+// created on first use (`@k`); steps act on the current one. Each has its own recording connections.
+type sessUnit struct {
+	sess  *packet.Session
+	conn  *lib.RecConn
+	hconn *hookConn
+	fsess *packet.Session
+	fconn failConn
+	closing chan struct{}
+}
+
+func newSessUnit() *sessUnit {
+	u := &sessUnit{}
+	u.sess, u.conn = lib.NewSession()
+	u.hconn = &hookConn{RecConn: u.conn}
+	u.sess.Conn = u.hconn
+	u.fsess, _ = lib.NewSession()
+	u.fconn = failConn{lib.NewRecConn()}
+	u.fsess.Conn = u.fconn
+	return u
+}
+
+func (e *executor) use(k int) {
+	u := e.units[k]
+	if u == nil {
+		u = newSessUnit()
+		e.units[k] = u
+	}
+	e.sess, e.conn, e.hconn, e.fsess, e.fconn = u.sess, u.conn, u.hconn, u.fsess, u.fconn
+}
+
 func newExecutor() *executor {
-	e := &executor{pings: map[int]*pingRun{}}
-	e.sess, e.conn = lib.NewSession()
-	e.hconn = &hookConn{RecConn: e.conn}
-	e.sess.Conn = e.hconn
-	e.fsess, _ = lib.NewSession()
-	e.fconn = failConn{lib.NewRecConn()}
-	e.fsess.Conn = e.fconn
+	e := &executor{pings: map[int]*pingRun{}, units: map[int]*sessUnit{}}
+	e.use(0)
 	return e
 }
 
@@ -453,6 +490,54 @@ func (e *executor) stepAt(toks []string, i int) int {
 		e.lastNW = time.Now()
 		pr.beginDone = e.lastNW
 		return j + 1
+	case strings.HasPrefix(tok, "@"):
+		k, err := strconv.Atoi(tok[1:])
+		if err != nil || k < 0 || k > 7 {
+			e.bad = "badscript"
+			return i + 1
+		}
+		e.use(k)
+		e.lin = append(e.lin, tok)
+		e.lastNW = time.Now()
+		return i + 1
+	case strings.HasPrefix(tok, "close.") || strings.HasPrefix(tok, "closed."):
+		// Session.Close of session k (it ends with a 1 s sleep): close.k starts it in the background and
+		// goes on once the connection has been closed (+ a moment for whatever follows before the sleep);
+		// closed.k waits until Close has returned.
+		f := strings.Split(tok, ".")
+		k, err := strconv.Atoi(f[1])
+		u := e.units[k]
+		if err != nil || u == nil {
+			e.bad = "badscript"
+			return i + 1
+		}
+		if f[0] == "close" {
+			if u.closing != nil {
+				e.bad = "badscript"
+				return i + 1
+			}
+			u.closing = make(chan struct{})
+			go func() { u.sess.Close(); u.fsess.Close(); close(u.closing) }()
+			deadline := time.Now().Add(2 * time.Second)
+			for !u.hconn.IsClosed() && time.Now().Before(deadline) {
+				time.Sleep(200 * time.Microsecond)
+			}
+			time.Sleep(15 * time.Millisecond)
+		} else {
+			if u.closing == nil {
+				e.bad = "badscript"
+				return i + 1
+			}
+			select {
+			case <-u.closing:
+			case <-time.After(5 * time.Second):
+				e.bad = "close-stuck"
+				return i + 1
+			}
+		}
+		e.lin = append(e.lin, tok)
+		e.lastNW = time.Now()
+		return i + 1
 	case strings.HasPrefix(tok, "vdr."):
 		// Session.ValidateDefaultRouter(peer p): Ping(peer) and then the internal ping with the ROUTER's IP
 		// as source; a responder inside WriteTo answers every echo request to the request's own source
